@@ -168,8 +168,12 @@ func genENode(t *rapid.T, depth int, allowDollar bool, equs *[]*ENode, used map[
 		} else {
 			v = rapid.Int64Range(-300, 70000).Draw(t, "litu")
 		}
-		style := rapid.IntRange(0, 2).Draw(t, "lits")
-		return &ENode{Lit: &v, Text: renderImm(v, style)}
+		style := rapid.IntRange(0, 3).Draw(t, "lits")
+		if style == 3 && v >= 0 {
+			// decimal with leading zeros is still decimal (there is no octal notation)
+			return &ENode{Lit: &v, Text: fmt.Sprintf("0%d", v)}
+		}
+		return &ENode{Lit: &v, Text: renderImm(v, style%3)}
 	}
 	op := rapid.SampledFrom([]string{"+", "-", "*", "/", "%", "+", "-", "*"}).Draw(t, "op")
 	n := &ENode{Op: op, SpL: rapid.IntRange(0, 2).Draw(t, "spl"), SpR: rapid.IntRange(0, 2).Draw(t, "spr")}
